@@ -39,6 +39,14 @@ if len(sys.argv) > 3 and sys.argv[3] == "helpers":
                "  module-level functions of `trie/branches.py` / `trie/smt.py`, `TrieFrontierCache` in `trie/fog.py`, or a small private\n"
                "  helper method that several public operations share. The slip should look harmless where it is made and break the\n"
                "  property only through one of the callers, on inputs the helper's own unit tests do not reach.\n")
+if len(sys.argv) > 3 and sys.argv[3] == "pysem":
+    VARIANT = ("* Prefer slips that come from *Python semantics a reviewer reads past*: truthiness used where `is None` / `== b\"\"` /\n"
+               "  `len(x) == 0` was meant (empty bytes, empty tuple, 0, empty dict are all falsy), `x or default`, a slice with a computed\n"
+               "  bound that can be `-0` or negative, `is` vs `==` on bytes / ints / tuples, list vs tuple equality and hashing, a\n"
+               "  shallow copy where a deep one is needed (nested lists of a node), iterating a dict / set while changing it, `zip`\n"
+               "  silently truncating, `dict.get` / `pop` / `setdefault` defaults, integer division and bit operations on Python ints\n"
+               "  (sign, precedence of `&`, `<<`, `==`), exception classes with the same name or a changed base class, `except` clauses\n"
+               "  that became broader or narrower, `finally` / `else` ordering, generator functions whose body runs later than the call.\n")
 prop = [json.loads(l) for l in open(os.path.join(HERE, "properties.jsonl")) if json.loads(l)["id"] == pid][0]
 wt = "/tmp/wt/%s%s" % (pid, suffix)
 os.makedirs("/tmp/wt", exist_ok=True)
